@@ -209,6 +209,8 @@ PLACE_FILE = {"second_root": ("root2", "cb/src/b.rs"), "third_root": ("root3", "
 BAD_ORDER = {"bad_item_arrives_first": ",First,Third", "bad_item_arrives_middle": "First,,Third", "bad_item_arrives_last": "First,Third,"}
 for _k in BAD_ORDER:
     PLACE_FILE[_k] = ("root1", "ca/src/bad.rs")
+# second_run: the files are generated twice into the same location; what is read back is what the SECOND run left there
+PLACE_FILE["second_run"] = ("root1", "cb/src/b.rs")
 # the annotation of the item that is ALONE in its file, in the spellings other than #[typeshare]
 PLACE_ANN = {"ann_abs_path_alone": "#[::typeshare::typeshare]", "ann_spaced_alone": "#[ typeshare ]", "ann_path_alone": "#[typeshare::typeshare]"}
 # directory arguments other than the top-level directories of the tree
@@ -254,6 +256,8 @@ def places(chk):
         os.makedirs(out)
         dest = ["-o", os.path.join(out, "out." + common.EXT[c["lang"]])] if c["mode"] == "single" else ["-d", out]
         r = cli.run_cli(["-l", c["lang"]] + args_for[c["lang"]] + dest + [os.path.join(d, x) for x in roots], timeout=20, env=env)
+        if c["place"] == "second_run" and r["exit"] == "ok":
+            r = cli.run_cli(["-l", c["lang"]] + args_for[c["lang"]] + dest + [os.path.join(d, x) for x in roots], timeout=20, env=env)
         texts = [open(os.path.join(out, f)).read() for f in sorted(os.listdir(out))] if r["exit"] == "ok" else []
         return c, r, texts
 
